@@ -102,7 +102,10 @@ inductive Response where
 
 /-! ## received frames, as decoded by the reference codec -/
 
-/-- a byte string that parses as a data frame (`EncryptedDataPayload::parse` succeeds) -/
+/-- a byte string that parses as a DOWNLINK data frame (`EncryptedDataPayload::parse` succeeds and the MType is
+UnconfirmedDataDown / ConfirmedDataDown, i.e. `!is_uplink()`).  A frame with an uplink MType (the device's own uplink
+echoed back, another device's uplink) is not a frame for an end-device, whatever its MIC: its view is `RxView.garbage`
+(`Session::handle_rx` returns `NoUpdate` for it before any other test; tie A: `C05.tieA_handle_rx_uplink_typed`) -/
 structure RxData where
   /-- length of the whole PHY payload -/
   len : Nat
@@ -130,7 +133,7 @@ structure RxJoinAccept where
   deriving DecidableEq, Repr
 
 inductive RxView where
-  | garbage                      -- neither parser accepts it
+  | garbage                      -- neither parser accepts it, or a data frame with an uplink MType
   | data (d : RxData)
   | joinAccept (j : RxJoinAccept)
   deriving DecidableEq, Repr
